@@ -138,6 +138,18 @@ Theorem loaded_file_sound : forall base d pn id owner ot op,
 Proof. exact loaded_file_sound_l. Qed.
 Print Assumptions loaded_file_sound.
 
+(* The policy store is fed by the directory monitor.  If every entry of the store is a built-in policy or what the
+   loader builds from a document that is on disk NOW ([from_disk]; checked by Coq on the observed store after every
+   scan of the monitor histories), then whatever the engine allows is granted by the built-in policy of that name or by
+   one of the documents on disk - in particular a policy that no file defines any more grants to nobody. *)
+Theorem store_from_disk_sound : forall builtin docs store pn id owner ot op,
+  from_disk builtin docs store ->
+  allowed_by_policy store pn id owner ot op = true ->
+  granted_spec builtin pn id owner ot op \/
+  exists d, In d docs /\ granted_spec (document_meaning d) pn id owner ot op.
+Proof. exact store_from_disk_sound_l. Qed.
+Print Assumptions store_from_disk_sound.
+
 Example loading_nonvacuous :
   let d := [("p", DSections (Some []) (Some [("G", [(2, [(10, AllowAll)])])])); ("q", DLegacy [(1, [(8, AllowOwner)])]);
             ("e", DSections None None)] in
